@@ -359,7 +359,7 @@ type Resolution struct {
 	MayRefuse bool
 	// Unspecified: the specification does not determine the outcome at all.
 	Unspecified bool
-	Corner    string
+	Corner      string
 	// WellKnownFor is the hostname whose well-known document is consulted
 	// ("" if none). No other well-known fetch may happen.
 	WellKnownFor string
